@@ -17,7 +17,7 @@ HOOKS = {
     "enable": ("Go build tag: ./check passes -tags verif to every `go test -c` / `go build` of the harness module, which "
                "compiles /repo through a replace directive"),
     "baseline_off_cmd": "cd /repo && go test -vet=off -count=1 -timeout 25m ./...",
-    "source_commits": ["a5b2892"],
+    "source_commits": ["a5b2892", "44fab63"],
     "add_only": True,
 }
 
